@@ -17,5 +17,6 @@ import CookModel.Props.C16
 import CookModel.Props.C17
 import CookModel.Props.C18
 import CookModel.Props.C19
+import CookModel.Props.Tables
 /- All property modules together: building this module shows that the 19 theorem files (and every lemma file
    they import) are mutually consistent: no two of them declare the same name. -/
